@@ -9,6 +9,7 @@
 -/
 import YtkProofs.Pipeline
 import YtkProofs.PipelineWF
+import YtkProofs.PipelineLoop
 
 namespace Ytk.C14
 open Ytk.Pipeline
@@ -149,6 +150,97 @@ theorem loop_stops_on_post_error (n : Nat) (t : String) (b pa : Action) (st : St
     (run (n + 1) (.loopIter t b (some pa)) st).tr =
       .test t (some true) :: ((run n (.doAct b) st).tr ++ (run n (.act pa) (run n (.doAct b) st).st).tr) := by
   rw [loop_step _ _ _ _ _ h]; simp [Res.pre, Res.andThen, hb, hp]
+
+/-! ### fuel, and the closed n-fold form of a loop
+
+  `iterSt n b p i st` (YtkProofs/PipelineLoop.lean) is the state after `i` iterations of "body, then
+  post-action" started in `st`, body and post-action run with fuel `n` (`iterSt_zero`, `iterSt_succ`). -/
+
+/-- fuel monotonicity: a run that did not run out of fuel is the same run with any larger fuel -/
+theorem fuel_mono (n m : Nat) (h : n ≤ m) (t : Task) (st : St) (hne : (run n t st).err ≠ some .fuel) :
+    run m t st = run n t st := run_mono h t st hne
+
+theorem iterSt_zero (n : Nat) (b : Action) (p : Option Action) (st : St) : iterSt n b p 0 st = st := rfl
+
+/-- the state after `i + 1` iterations is what the post-action (if any), started where the body ended,
+    leaves — body started in the state after `i` iterations -/
+theorem iterSt_succ (n : Nat) (b : Action) (p : Option Action) (i : Nat) (st : St) :
+    iterSt n b p (i + 1) st =
+      match p with
+      | none => (run n (.doAct b) (iterSt n b p i st)).st
+      | some pa => (run n (.act pa) (run n (.doAct b) (iterSt n b p i st)).st).st := by
+  rw [iterSt_succ']
+  cases p <;> rfl
+
+/-- Closed form, loop with a post-action.  If on the states before the first `k` iterations the test is
+    true and body and post-action end without error (with fuel `n`), and on the state after `k` iterations
+    the test is false, then for every fuel `m ≥ n + k + 1` the loop ends without error, in the `k`-fold
+    iterate, and its trace is (test · body · post)ᵏ · test:
+    the concatenation over `i < k` of `test true :: body trace_i ++ post trace_i`, then `test false`. -/
+theorem loop_trace (n : Nat) (t : String) (b pa : Action) (k : Nat) (st : St) (m : Nat)
+    (htrue : ∀ i, i < k → evalBool t (iterSt n b (some pa) i st).data = some true)
+    (hbody : ∀ i, i < k → (run n (.doAct b) (iterSt n b (some pa) i st)).err = none)
+    (hpost : ∀ i, i < k → (run n (.act pa) (run n (.doAct b) (iterSt n b (some pa) i st)).st).err = none)
+    (hfalse : evalBool t (iterSt n b (some pa) k st).data = some false)
+    (hm : n + k + 1 ≤ m) :
+    (run m (.loopIter t b (some pa)) st).err = none ∧
+    (run m (.loopIter t b (some pa)) st).st = iterSt n b (some pa) k st ∧
+    (run m (.loopIter t b (some pa)) st).tr =
+      ((List.range k).flatMap fun i =>
+        .test t (some true) :: ((run n (.doAct b) (iterSt n b (some pa) i st)).tr ++
+          (run n (.act pa) (run n (.doAct b) (iterSt n b (some pa) i st)).st).tr)) ++
+      [.test t (some false)] := by
+  rw [loopIter_closed n t b (some pa) k st m ⟨fun i hi => ⟨htrue i hi, hbody i hi, hpost i hi⟩, hfalse⟩ hm]
+  exact ⟨rfl, rfl, rfl⟩
+
+/-- Closed form, loop without post-action: (test · body)ᵏ · test -/
+theorem loop_trace_nopost (n : Nat) (t : String) (b : Action) (k : Nat) (st : St) (m : Nat)
+    (htrue : ∀ i, i < k → evalBool t (iterSt n b none i st).data = some true)
+    (hbody : ∀ i, i < k → (run n (.doAct b) (iterSt n b none i st)).err = none)
+    (hfalse : evalBool t (iterSt n b none k st).data = some false)
+    (hm : n + k + 1 ≤ m) :
+    (run m (.loopIter t b none) st).err = none ∧
+    (run m (.loopIter t b none) st).st = iterSt n b none k st ∧
+    (run m (.loopIter t b none) st).tr =
+      ((List.range k).flatMap fun i =>
+        .test t (some true) :: (run n (.doAct b) (iterSt n b none i st)).tr) ++ [.test t (some false)] := by
+  rw [loopIter_closed n t b none k st m ⟨fun i hi => ⟨htrue i hi, hbody i hi, rfl⟩, hfalse⟩ hm]
+  refine ⟨rfl, rfl, ?_⟩
+  simp [iterTrace, iterEvents, iterPost, iterBody, Res.ok]
+
+/-- The loop operation as the executor runs it (`Execute(LoopOp)`): the init action — if there is one —
+    runs once, before the first test, then the closed form; everything inside one before/after pair.
+    `iterPost n i st` is `Execute(init)` with fuel `n` (the unchanged state and no events when `i = none`),
+    `iterTrace` the (test · body · post)ᵏ part (`iterTrace_eq`). -/
+theorem loop_op_trace (n : Nat) (i : Option Action) (t : String) (b : Action) (p : Option Action) (k : Nat)
+    (st : St) (m : Nat) (hi : (iterPost n i st).err = none)
+    (h : TestsTrueFor n t b p k (iterPost n i st).st) (hm : n + k + 1 ≤ m) :
+    run (m + 1) (.op (.loop i t b p)) st =
+      ⟨.before "loop" :: ((iterPost n i st).tr ++
+          (iterTrace n t b p k (iterPost n i st).st ++ [.test t (some false)])) ++ [.after "loop" none],
+        iterSt n b p k (iterPost n i st).st, none⟩ :=
+  loop_op_closed n i t b p k st m hi h hm
+
+theorem iterTrace_eq (n : Nat) (t : String) (b : Action) (p : Option Action) (k : Nat) (st : St) :
+    iterTrace n t b p k st =
+      (List.range k).flatMap fun i =>
+        .test t (some true) :: ((run n (.doAct b) (iterSt n b p i st)).tr ++
+          (match p with
+            | none => []
+            | some pa => (run n (.act pa) (run n (.doAct b) (iterSt n b p i st)).st).tr)) := by
+  cases p <;> rfl
+
+theorem iterPost_eq (n : Nat) (i : Option Action) (st : St) :
+    iterPost n i st = match i with
+      | none => Res.ok st
+      | some a => run n (.act a) st := rfl
+
+theorem testsTrueFor_iff (n : Nat) (t : String) (b : Action) (p : Option Action) (k : Nat) (st : St) :
+    TestsTrueFor n t b p k st ↔
+      (∀ i, i < k → evalBool t (iterSt n b p i st).data = some true ∧
+        (run n (.doAct b) (iterSt n b p i st)).err = none ∧
+        (iterPost n p (run n (.doAct b) (iterSt n b p i st)).st).err = none) ∧
+      evalBool t (iterSt n b p k st).data = some false := Iff.rfl
 
 /-! ### call / define -/
 
@@ -359,6 +451,51 @@ theorem nonvacuous_loop :
       ["init", "test:true", "body:true", "post", "test:true", "body:false", "post", "test:false"] := by
   decide
 
+/-- a counting loop inside the template micro-fragment: the body's TemplateOp increments the unary
+    counter `c` ("" ↦ "i" ↦ "ii" ↦ "iii"); the bound 3 is the shift register cur ← n1 ← n2 ← n3 = T T T F
+    moved by the post-action's children; the test reads `cur` -/
+def exCountBody : Action := .mk "body" 0 none [.template "{{ .c }}i" "c" false none, .log "body:{{ .c }}"] []
+def exCountPost : Action :=
+  .mk "post" 0 none [.log "post:{{ .c }}"]
+    [.mk "shift3" 3 none [.template "{{ .n3 }}" "n2" false none] [],
+     .mk "shift1" 1 none [.template "{{ .n1 }}" "cur" false none] [],
+     .mk "shift2" 2 none [.template "{{ .n2 }}" "n1" false none] []]
+def exCountInit : Action := .mk "init" 0 none [.template "true" "cur" false none] []
+def exCountSt0 : St :=
+  ⟨[("c", .leaf ⟨"string", ""⟩), ("n1", .leaf ⟨"string", "true"⟩), ("n2", .leaf ⟨"string", "true"⟩),
+    ("n3", .leaf ⟨"string", "false"⟩)], []⟩
+def exCountSt : St := ⟨AMap.insert exCountSt0.data "cur" (.leaf ⟨"string", "true"⟩), []⟩
+
+/-- the hypotheses of `loop_trace` hold for k = 3 (fuel 12 per body / post-action) … -/
+theorem nonvacuous_loop_trace_hyps :
+    (∀ i, i < 3 → evalBool "{{ .cur }}" (iterSt 12 exCountBody (some exCountPost) i exCountSt).data = some true) ∧
+    (∀ i, i < 3 → (run 12 (.doAct exCountBody) (iterSt 12 exCountBody (some exCountPost) i exCountSt)).err = none) ∧
+    (∀ i, i < 3 → (run 12 (.act exCountPost)
+        (run 12 (.doAct exCountBody) (iterSt 12 exCountBody (some exCountPost) i exCountSt)).st).err = none) ∧
+    evalBool "{{ .cur }}" (iterSt 12 exCountBody (some exCountPost) 3 exCountSt).data = some false := by
+  decide +kernel
+
+/-- … and the loop does what the closed form says: three iterations, body before post, counter at 3
+    afterwards; also through the operation wrapper, with an init action that sets `cur` first -/
+theorem nonvacuous_loop_trace :
+    seqOf (run 16 (.loopIter "{{ .cur }}" exCountBody (some exCountPost)) exCountSt).tr =
+      ["test:true", "body:i", "post:i", "test:true", "body:ii", "post:ii", "test:true", "body:iii", "post:iii",
+       "test:false"] ∧
+    (run 16 (.loopIter "{{ .cur }}" exCountBody (some exCountPost)) exCountSt).err = none ∧
+    lookup (run 16 (.loopIter "{{ .cur }}" exCountBody (some exCountPost)) exCountSt).st.data "c" =
+      some (.leaf ⟨"string", "iii"⟩) ∧
+    (run 16 (.loopIter "{{ .cur }}" exCountBody (some exCountPost)) exCountSt).st =
+      iterSt 12 exCountBody (some exCountPost) 3 exCountSt ∧
+    seqOf (run 18 (.op (.loop (some exCountInit) "{{ .cur }}" exCountBody (some exCountPost))) exCountSt0).tr =
+      ["test:true", "body:i", "post:i", "test:true", "body:ii", "post:ii", "test:true", "body:iii", "post:iii",
+       "test:false"] := by
+  obtain ⟨h1, h2, h3, h4⟩ := nonvacuous_loop_trace_hyps
+  have h := loop_trace 12 "{{ .cur }}" exCountBody exCountPost 3 exCountSt 16 h1 h2 h3 h4 (by omega)
+  refine ⟨?_, h.1, ?_, h.2.1, ?_⟩
+  · decide +kernel
+  · decide +kernel
+  · decide +kernel
+
 /-- call with a dotted arguments path: argument readable inside, path gone afterwards (the emptied
     intermediate container `p` remains), define twice: error, first kept -/
 def exF : Action := .mk "f" 0 none [.log "x={{ .p.q.x }}"] []
@@ -374,5 +511,33 @@ theorem nonvacuous_call :
     logsOf exR3.tr = ["x=N!"] ∧ lookup exR3.st.data "p.q" = none ∧
     exR4.st.data = [("name", .leaf ⟨"string", "N"⟩), ("p", .cont [])] := by
   decide
+
+/-- `run_wf` / `call_args_gone_dotted` on a concrete program: a callable that merges a nested literal
+    below the arguments path's parent and replaces the arguments themselves, called with a dotted arguments
+    path; all hypotheses hold, and so do the conclusions (evaluated independently by the kernel) -/
+def exG : Action :=
+  .mk "g" 0 none
+    [.set (some (.cont [("r", .cont [("u", .leaf ⟨"int", "1"⟩), ("v", .list [.cont [("k", .leaf ⟨"int", "2"⟩)]])])])) "p"
+      none]
+    [.mk "g1" 1 none [.set (some (.cont [("x", .leaf ⟨"int", "3"⟩), ("y", .leaf ⟨"int", "4"⟩)])) "p.q" (some "replace")] []]
+def exCallG : Op := .call "g" (some "p.q") (.cont [("x", .leaf ⟨"string", "{{ .name }}!"⟩)])
+def exS1 : St := ⟨[("name", .leaf ⟨"string", "N"⟩), ("p", .cont [("a", .leaf ⟨"int", "0"⟩)])], [("g", exG)]⟩
+
+theorem nonvacuous_run_wf :
+    Task.LitWF (.op exCallG) ∧ (∀ p ∈ exS1.defs, p.2.LitWF) ∧ Node.WF (.cont exS1.data) ∧
+    AMap.get? exS1.defs "g" = some exG ∧
+    renderLenient ((some "p.q").getD "args") exS1.data ≠ "" ∧
+    (∀ s ∈ splitPath (renderLenient ((some "p.q").getD "args") exS1.data), hasIdxSuffix s = false) ∧
+    (run 30 (.op exCallG) exS1).err = none ∧
+    (run 30 (.op exCallG) exS1).st.data =
+      [("name", .leaf ⟨"string", "N"⟩),
+       ("p", .cont [("a", .leaf ⟨"int", "0"⟩),
+                    ("r", .cont [("u", .leaf ⟨"int", "1"⟩), ("v", .list [.cont [("k", .leaf ⟨"int", "2"⟩)]])])])] := by
+  refine ⟨Op.litWF_of_b exCallG (by decide +kernel), ?_, wf_of_wfb _ (by decide +kernel), rfl,
+    by decide +kernel, by decide +kernel, by decide +kernel, by decide +kernel⟩
+  intro p hp
+  simp only [exS1, List.mem_singleton] at hp
+  subst hp
+  exact Action.litWF_of_b exG (by decide +kernel)
 
 end Ytk.C14
